@@ -407,6 +407,19 @@ func (r *Reader) parseWorksheet(data []byte, name string, index int) (*Sheet, er
 		}
 	}
 
+	// Only the top-left cell of a merged region is displayed. A value that a writer
+	// left behind in a covered cell must not show up in the grid, the text, the
+	// Markdown table or the document model (RawValue keeps what the file said).
+	for _, mr := range sheet.MergedRegions {
+		for row := mr.StartRow; row <= mr.EndRow && row < len(sheet.Rows); row++ {
+			for col := mr.StartCol; col <= mr.EndCol && col < len(sheet.Rows[row]); col++ {
+				if row != mr.StartRow || col != mr.StartCol {
+					sheet.Rows[row][col].Value = ""
+				}
+			}
+		}
+	}
+
 	return sheet, nil
 }
 
